@@ -378,7 +378,8 @@ def group12 (gs : Array Group) (index : Nat) (limits : Limits) : Option (Nat × 
     let endCode := e + 1
     let endCode :=
       match limits with
-      | some (maxChar, glyphCount) => min ((glyphCount - g) + s) (min endCode maxChar)
+      -- `max_char` is the last valid character, the range end is exclusive (after fix 692a13d)
+      | some (maxChar, glyphCount) => min ((glyphCount - g) + s) (min endCode (maxChar + 1))
       | none => endCode
     some (s, endCode, s, g)
 
